@@ -96,6 +96,23 @@ def when_any(ctx):
       conds = ' and '.join(U(i) for g in c.generators for i in g.ifs).replace(' ', '')
       v = U(c.generators[0].target)
       ok = U(c.generators[0].iter) == ars and ('%s.successful()' % v in conds) and 'not%s.successful()' % v not in conds
+    elif isinstance(base, ast.Name):
+      # the candidate list is filled by an explicit loop over the inputs: every append must be under successful()
+      apps = [(lp, c_) for lp in walk_no_nested(f.node) if isinstance(lp, ast.For) and U(lp.iter) == ars
+              for c_ in ast.walk(lp) if isinstance(c_, ast.Call) and call_attr(c_) == 'append' and U(c_.func.value) == base.id]
+      others = [c_ for c_ in walk_no_nested(f.node) if isinstance(c_, ast.Call) and call_attr(c_) in ('append', 'extend', 'insert') and U(c_.func.value) == base.id
+                and not any(c_ is a_ for _, a_ in apps)]
+      ok = bool(apps) and not others
+      for lp, c_ in apps:
+        v = U(lp.target)
+        okp = False
+        for evp, exp in enum_paths(ctx, f, body=lp.body):
+          for i, e in enumerate(evp):
+            if e.kind == 'call' and e.node is c_:
+              okp = ('%s.successful()' % v, True) in FACTS(evp[:i])
+              if not okp:
+                ok = False
+        ok = ok and okp
     ctx.ob('C17.R2', f, 'shortcut return %s' % U(r.value), ok, 'returns %s, which is not filtered by successful()' % U(r.value), why2)
   # R3
   _link_rules(ctx, f, ars, cb.name)
@@ -129,7 +146,7 @@ def when_any(ctx):
       # the zero test must come after the decrement
       order_ok = False
       di = [i for i, e in enumerate(ev) if decs and e is decs[0]]
-      zi = [i for i, e in enumerate(ev) if e.kind == 'cond' and U(e.node).replace(' ', '') == zero and e.info]
+      zi = [i for i, e in enumerate(ev) if e.kind == 'cond' and (zero, True) in FACTS([e])]
       if di and zi and di[0] < zi[0]:
         order_ok = True
       ok = guard and order_ok and not has(fs, '%s.successful()' % arp, True) and U(c.args[0]) == '%s.exception' % arp
@@ -216,7 +233,7 @@ def when_all(ctx):
       zero = has(fs, '%s[0]==0' % cell, True)
       if zero:
         di = [i for i, e in enumerate(ev) if decs and e is decs[0]]
-        zi = [i for i, e in enumerate(ev) if e.kind == 'cond' and U(e.node).replace(' ', '') == '%s[0]==0' % cell]
+        zi = [i for i, e in enumerate(ev) if e.kind == 'cond' and ('%s[0]==0' % cell, True) in FACTS([e])]
         wi = [i for i, e in enumerate(ev) if wr and e is wr[0]]
         si = [i for i, e in enumerate(ev) if e.kind == 'call' and sets and e.node is sets[0]]
         ok = len(sets) == 1 and U(sets[0].args[0]) == res and di and zi and wi and si and di[0] < zi[0] and wi[0] < si[0]
